@@ -59,3 +59,28 @@ Proof. exact refines_step. Qed.
 (* the premises are satisfiable: a 9-operation history over two DOMs using every kind of operation *)
 Theorem C09_nonvacuous : ops_ok aworld0 ex_ops /\ exists aw', arun aworld0 ex_ops = Some aw'.
 Proof. split; [exact ex_ops_ok|]. destruct ex_ops_defined as [aw' [H _]]. exists aw'. exact H. Qed.
+
+(* ==== WeakDom::transfer outside its documented precondition (the new parent must be an instance of the destination DOM):
+   after the /repo repair the call panics before anything is moved; before it, an instance inside the transferred subtree could
+   stand in for the missing parent and the call returned with a parent cycle (computed witness, found by the thorough dom-ops run) *)
+From RbxVerif Require Import RefMoveGuard.
+
+Theorem C09_transfer_absent_dest_panics : forall src dst nu r dest,
+  has dest (d_insts dst) = false -> dom_transfer src dst nu r dest = Panic.
+Proof. exact transfer_absent_dest_panics. Qed.
+
+Theorem C09_transfer_pinned_agrees_when_dest_present : forall src dst nu r dest,
+  has dest (d_insts dst) = true -> dom_transfer src dst nu r dest = dom_transfer_pinned src dst nu r dest.
+Proof. exact transfer_pinned_agrees. Qed.
+
+Theorem C09_transfer_pinned_cycle_refuted :
+  exists d0 d1 d1' d0' nu nu' i2 i6,
+    dom_transfer_pinned gd0 gd1 100 2 6 = Ok (d0, d1, nu) /\
+    dom_transfer_pinned d1 d0 nu 6 2 = Ok (d1', d0', nu') /\
+    lookup 2 (d_insts d0') = Some i2 /\ i_parent i2 = 6 /\
+    lookup 6 (d_insts d0') = Some i6 /\ i_parent i6 = 2.
+Proof. exact transfer_pinned_cycle_refuted. Qed.
+
+Theorem C09_transfer_repaired_panics :
+  exists d0 d1 nu, dom_transfer gd0 gd1 100 2 6 = Ok (d0, d1, nu) /\ dom_transfer d1 d0 nu 6 2 = Panic.
+Proof. exact transfer_repaired_panics. Qed.
